@@ -4,7 +4,7 @@ use crate::report::Report;
 use crate::Cfg;
 
 pub fn run(cfg: &Cfg, rep: &mut Report) {
-    rep.rule = "Seeded histories per NFT flavour (Base sequential / explicit fresh ids, Enumerable both, Consecutive; wrappers, the three examples and a votes-extension wrapper): mint, batch mint of {1,2,3,5,31,32,33,64,100} (every 4th consecutive history {33,100,3199,3200,3201}; thorough also 32000), transfer, transfer_from, burn, burn_from, self-transfer, by 4 accounts; ids biased to first/last, item (32) and bucket (3200) edges, neighbours of touched ids, burned and beyond-range ids. owner_of is compared with the model for EVERY id in range + 8 after every call while the range is <= 600 (every 25th call up to 4000; stratified sample of 32/256 beyond). Distinct case = (flavour, op, position class of the id, outcome).".into();
+    rep.rule = "Seeded histories per NFT flavour (Base sequential / explicit fresh ids, Enumerable both, Consecutive; wrappers, the three examples and a votes-extension wrapper): mint, batch mint of {1,2,3,5,31,32,33,64,100} (every 4th consecutive history {33,100,3199,3200,3201}; thorough also 32000), transfer, transfer_from, burn, burn_from, self-transfer, by 4 accounts; ids biased to first/last, item (32) and bucket (3200) edges, neighbours of touched ids, burned and beyond-range ids. owner_of is compared with the model for EVERY id in range + 8 after every call while the range is <= 600 (every 25th call up to 4000; stratified sample of 32/256 beyond). Distinct case = (flavour, op, position class of the id, outcome). The parties are four accounts and the token contract's own address (which can own, receive and be approved, but in whose name nothing can be signed).".into();
     let nh = cfg.pick(4u64, 40);
     let steps = cfg.pick(120usize, 250);
     for (fi, fl) in ALL.iter().enumerate() {
